@@ -152,7 +152,10 @@ func (w *world) keyOf(s *state) string {
 		parts = append(parts, fmt.Sprintf("%s(node=%s,prev=%s,state=%s)", w.nameOfId(id), n.NodeId, prev, st))
 	}
 	sort.Strings(parts)
-	return strings.Join(parts, " ") + " accepted=" + strings.Join(s.accepted, ",")
+	// (an honoured request with re-sealed info attached leaves the same records
+	// as the plain one - the records are part of the key - so the two are one
+	// state; the payload replayed later is whichever was honoured first)
+	return strings.Join(parts, " ") + " accepted=" + strings.ReplaceAll(strings.ReplaceAll(strings.Join(s.accepted, ","), "+rewrapped-by-own-record", ""), "|caller-nil-option", "")
 }
 
 // source returns the node-side key material named by src, or nil.
@@ -334,6 +337,9 @@ func (w *world) send(s *state, plain bool, lbl string, req *types.RotateNodeCred
 	// a server-wide option list that happens to contain WithState must not
 	// displace the state carried over from the authenticating record
 	var callerOpts []nodeenrollment.Option
+	if strings.HasSuffix(lbl, "|caller-nil-option") {
+		callerOpts = append(callerOpts, nil) // a conditionally built option that was left unset
+	}
 	if strings.HasSuffix(lbl, "|caller-state") {
 		callerOpts = append(callerOpts, nodeenrollment.WithState(harness.Struct(map[string]any{"record": "caller-supplied"})))
 	}
@@ -479,7 +485,7 @@ type replayData struct {
 func (w *world) apply(s *state, ic initCfg, label string, r *engine.Report) (*state, string, string) {
 	switch {
 	case strings.HasPrefix(label, "rot|"):
-		f := strings.Split(strings.TrimSuffix(label, "|caller-state"), "|")
+		f := strings.Split(strings.TrimSuffix(strings.TrimSuffix(label, "|caller-state"), "|caller-nil-option"), "|")
 		rq := request{f[1], f[2], f[3]}
 		req, innerKey := w.build(s, rq)
 		if req == nil {
@@ -537,6 +543,9 @@ func labels(c *engine.Ctx) []string {
 	for _, s := range []string{"cur:K1", "prev:K1", "cur:Kn1", "cur:K2"} {
 		for _, i := range []string{"key:K1", "node:X", "key:Kn1", "key:K2"} {
 			out = append(out, request{s, i, "fresh"}.label()+"|caller-state")
+			if s == "cur:K1" {
+				out = append(out, request{s, i, "fresh"}.label()+"|caller-nil-option")
+			}
 		}
 	}
 	return out
@@ -631,7 +640,7 @@ func init() {
 	engine.Register(&engine.CheckDef{
 		ID:    "C10",
 		Level: "model_checking",
-		Rule: "BFS (quick depth 3, thorough 4) from 11 initial stores (previous key recorded or not; the superseded record still stored before/after its successor; a second record under the node id before/after the first; NodeIdLoader or plain storage) over rotation requests {encrypting key: current of K1/K1b/K2/new key, recorded previous pair, unrelated} x {identification: key id of K1/K2/unknown/new, node id X, unknown node id} x {inner: fresh key, fresh key with registration info re-sealed under the sender's own keys attached, registered K1/K2, token-sized nonce, compact token nonce, 31- and 33-byte nonces, expired window, wrong signer, not a request}, the honest shapes again with a caller-supplied WithState option (K2's record carries no state, the others do), replays of every honoured payload and removal of old records; every request refused only for an already registered inner key is retried with each single storage operation failing and must stay refused; " +
+		Rule: "BFS (quick depth 3, thorough 4) from 11 initial stores (previous key recorded or not; the superseded record still stored before/after its successor; a second record under the node id before/after the first; NodeIdLoader or plain storage) over rotation requests {encrypting key: current of K1/K1b/K2/new key, recorded previous pair, unrelated} x {identification: key id of K1/K2/unknown/new, node id X, unknown node id} x {inner: fresh key, fresh key with registration info re-sealed under the sender's own keys attached, registered K1/K2, token-sized nonce, compact token nonce, 31- and 33-byte nonces, expired window, wrong signer, not a request}, the honest shapes again with a caller-supplied WithState option (K2's record carries no state, the others do) and with a nil entry in the caller's option list, replays of every honoured payload and removal of old records; every request refused only for an already registered inner key is retried with each single storage operation failing and must stay refused; " +
 			"distinct_nontrivial = canonical states reached (records with node id / previous key / state, and the set of honoured payloads)",
 		Assumptions: []string{"removing the record a rotation created and then replaying that rotation is outside the alphabet (the quantifier lists replay and repeated rotation, not revocation)", "forged = encrypted under another pool key"},
 		Shards:      func(c *engine.Ctx) int { return 11 },
